@@ -159,7 +159,7 @@ def make_canary(text, which):
         if any("external_body" in a or "verifier::external" in a for a in f["attrs"]):
             continue
         body_txt = rl.text_of(toks, f["body_open"], f["last_tok"])
-        if "vx:nocanary" in body_txt or ("vx:nocanary-" + which) in body_txt:
+        if "vx:nocanary-all" in body_txt or ("vx:nocanary-" + which) in body_txt:
             continue
         o = toks[f["body_open"]]
         c = toks[f["last_tok"]]
